@@ -122,14 +122,15 @@ theorem wei_textbook_laws {μ l τ : ℝ} (hl : 0 < l) (hτ : 0 < τ) :
 
 /-- L1 (repaired guard, DESIGN §7 item 12): `esl_wei_cdf` within `2.5e-17` of the textbook cdf for EVERY argument — in
     particular at `y = 1`, where the old guard `|τ log y| < eslSMALLX1` returned `1.0` for `1 - 1/e`; survival, log
-    survival and the inverse are exact; cdf + surv = 1 within `2.5e-17`; `logcdf` within `1e-8` of `log cdf`. -/
+    survival, the inverse, the density and the log density are exact; cdf + surv = 1 within `2.5e-17`; `logcdf` within
+    `1e-8` of `log cdf`. -/
 theorem wei_code_eq_textbook (x μ l τ : ℝ) :
     |esl_wei_cdf x μ l τ - weiCdf μ l τ x| ≤ 2.5e-17 ∧ esl_wei_surv x μ l τ = weiSurv μ l τ x ∧
       esl_wei_logsurv x μ l τ = log (weiSurv μ l τ x) ∧ esl_wei_invcdf x μ l τ = weiInvCdf μ l τ x ∧
       |esl_wei_cdf x μ l τ + esl_wei_surv x μ l τ - 1| ≤ 2.5e-17 ∧ (μ < x → |esl_wei_logcdf x μ l τ - log (weiCdf μ l τ x)| ≤ 1e-8) ∧
-      (x ≠ μ → esl_wei_pdf x μ l τ = weiPdf μ l τ x) :=
+      (x ≠ μ → esl_wei_pdf x μ l τ = weiPdf μ l τ x) ∧ (0 < l → 0 < τ → μ < x → esl_wei_logpdf x μ l τ = log (weiPdf μ l τ x)) :=
   ⟨WeiThm.code_cdf x μ l τ, WeiThm.code_surv x μ l τ, WeiThm.code_logsurv x μ l τ, WeiThm.code_invcdf x μ l τ,
-    WeiThm.code_cdf_add_surv x μ l τ, WeiThm.code_logcdf l τ, WeiThm.code_pdf l τ⟩
+    WeiThm.code_cdf_add_surv x μ l τ, WeiThm.code_logcdf l τ, WeiThm.code_pdf l τ, WeiThm.code_logpdf⟩
 
 /-- the former failing input: `esl_wei_cdf(1, 0, 1, 0.7)` is now within `2.5e-17` of `1 - e⁻¹` -/
 example : |esl_wei_cdf (1 : ℝ) 0 1 0.7 - (1 - exp (-1))| ≤ 2.5e-17 := by
